@@ -379,7 +379,7 @@ def run(chk):
                               {"site": f"{name}/{'Z present' if cond else 'Z absent'}", "transform": tname})
     # ---- conditional Poisson, all block widths 1..3 x 1..3 x 1..4 (unequal X / Y widths: the code raises ValueError and the model says
     #      so), both routes; drawn after every other stream so that the earlier streams are the ones of the previous version of this check
-    for t in range(30 if quick else 2500):
+    for t in range(30 if quick else 1500):
         kx = int(rng.integers(1, 4))
         ky = kx if rng.random() < 0.8 else int(rng.integers(1, 4))
         kz = int(rng.integers(1, 5))
